@@ -19,7 +19,7 @@ RULE = (
     "(b) history: a long-lived process performs 5-30 random parse / truncated-parse / verify / generate / "
     "reflect operations on OTHER schemas (through get_fcp with its default, process-wide logger; in half "
     "of the histories with one long-lived Generator object per plug-in) before generating the target; (c) reuse: the same tree "
-    "object generates twice with each generator and cpp again after dbc and can_c.  Every map is "
+    "object generates twice with each generator and cpp again after dbc and can_c; (d) address reuse: one process generates the schemas in turns for 6-12 rounds, every tree dropped and collected before the next is parsed (trees land on addresses of earlier trees).  Every map is "
     "compared with the PYTHONHASHSEED=0 fresh-process map.  distinct = (schema, generator, "
     "configuration) with a non-empty file map."
 )
@@ -152,6 +152,21 @@ def run(run):
             run.count("history_operations", sum(len(v) for v in out.get("histories", {}).values()))
             if not compare(run, base["results"], out["results"], texts, "after-history", None):
                 return
+        out, err = run_child({"mode": "address-reuse", "schemas": paths, "rounds": run.pick(6, 12)}, seeds[0], tmp, "addr")
+        if out is None:
+            run.inconclusive_because("address-reuse child failed: %s" % err)
+            return
+        run.count("address_reuse_processes")
+        run.count("trees_generated_in_sequence", out.get("trees", 0))
+        run.count("trees_at_a_reused_address", out.get("trees_at_a_reused_address", 0))
+        for p_, per in out["results"].items():
+            extra = sorted(k for k in per if "/differs-in-round-" in k)
+            if extra:
+                run.violation("one process generating the same schemas in turns: %s yields different artefacts from one round to another" % extra[0].split("/")[0],
+                              {"schema": texts[p_], "configuration": "address-reuse", "differing": extra[:4]})
+                return
+        if not compare(run, base["results"], out["results"], texts, "schemas-in-turns-in-one-process", None):
+            return
         out, err = run_child({"mode": "reuse", "schemas": paths}, 0, tmp, "reuse")
         if out is None:
             run.inconclusive_because("reuse child failed: %s" % err)
@@ -168,7 +183,7 @@ def run(run):
 
 
 def conclude(run):
-    run.require("fresh_processes", "history_processes", "history_operations", "reuse_processes", "maps_compared")
+    run.require("address_reuse_processes", "fresh_processes", "history_processes", "history_operations", "reuse_processes", "maps_compared")
 
 
 def replay(run, case):
